@@ -359,6 +359,16 @@ def run_program(size, ops, rng, policy, mode="mpi"):
            f"assigned={dash([f'{i}:{int(s)}' for i, s in m.assigned.items()])} "
            f"alive={dash(['0' if out['returned'].get(r) else '1' for r in ranks])} "
            f"todo={state['todo']} skipped=0")
+    # round 5: what is left in the channels and the termination measure of the final state,
+    # computed from the world (not from the model): 2·(calls master() has not made) + size + 1
+    # while the master is neither done nor has raised, + messages waiting master -> slave
+    msize = 1 if mode == "noimport" else size
+    inbox = [len(w.chan[(0, r)]) for r in ranks]
+    outbox = [len(w.chan[(r, 0)]) for r in ranks]
+    dead = bool(out["returned"].get(0)) or out["exc"] is not None
+    measure = (0 if dead else 2 * state["todo"] + msize + 1) + sum(inbox)
+    ans += (f" inbox={dash([str(x) for x in inbox])} outbox={dash([str(x) for x in outbox])} "
+            f"steps={len(w.sched)} measure={measure} measure0={2 * len(ops) + msize + 1}")
     req = (f"proto {1 if mode == 'noimport' else size} {dash([op_str(o) for o in ops])} "
            f"{dash([str(c) for c in w.sched])}")
     return req, ans, out, got
